@@ -30,7 +30,7 @@ def swapcase_closed(s):
 
 
 def tok(c):
-    tag, pid = c
+    tag, pid = c[0], c[1]
     if tag == "loop":
         return "loop"
     if pid and pid[0] == "optional":
@@ -64,16 +64,30 @@ def run(ck):
         # success requires a non-empty taken part; 13 (CR) is white space
         ck.judge(13 in (ws or ()), "C11-W", "whitespace:cr", "CR (13) is white space, so CR LF ends a message like LF", "CR is not white space")
 
-    # ---- P: parse skeleton
+    # ---- P: parse skeleton.  The language of effective skeletons (sequences of *successful* consumers along the
+    # remainder chain; an optional(X) whose outcome is not inspected stands for both "X" and "nothing") of all accepting
+    # paths must equal the language of  ws? ( NL | header '?'? (ws args?)? ws? (NL | ';') ).
     fp = sk.fns.get(P + "parse")
     if ck.anchor("C11-P", P + "parse", fp):
-        allowed = set()
-        for q in ("", " tag(?)"):
-            for args in ("", " whitespace", " whitespace arguments"):
-                for term in ("tag(NL)", "tag(;)"):
-                    allowed.add(("opt(whitespace) opt(tag(NL)) command_program_header%s%s opt(whitespace) %s" % (q, args, term)).strip())
-        allowed.add("opt(whitespace) opt(tag(NL))")
-        seen = set()
+        spec = set()
+        for ws0 in ((), ("whitespace",)):
+            spec.add(ws0 + ("tag(NL)",))
+            for q in ((), ("tag(?)",)):
+                for args in ((), ("whitespace",), ("whitespace", "arguments")):
+                    for ws1 in ((), ("whitespace",)):
+                        for term in ("tag(NL)", "tag(;)"):
+                            spec.add(ws0 + ("command_program_header",) + q + args + ws1 + (term,))
+        # "ws ws" cannot be told from "ws" by the grammar either: white space runs are maximal. Normalise both sides.
+
+        def norm(seq):
+            out = []
+            for t in seq:
+                if t == "whitespace" and out and out[-1] == "whitespace":
+                    continue
+                out.append(t)
+            return tuple(out)
+        spec = {norm(x) for x in spec}
+        impl = set()
         n = 0
         for i, x in enumerate(fp["exits"]):
             r = sk.exit_result(x)
@@ -81,15 +95,33 @@ def run(ck):
                 continue
             n += 1
             ch = sk.chain(sk.rem_of(r[0][1]), fp["inp"], x, fp["ps"])
-            s = " ".join(tok(c) for c in ch) if ch is not None else None
-            seen.add(s)
-            ck.judge(s in allowed, "C11-P", "parse:skeleton#%d" % n, "Ok path: %s" % s,
-                     "an accepting path of parse has skeleton `%s`, which is not an instance of ws? (NL | header ?? (ws args?)? ws? (NL|;))" % s,
+            if ch is None:
+                ck.bad("C11-P", "parse:skeleton#%d" % n, "remainder of an accepting path is not suffix-derived", data=pathsum.show_exit(x)[:800])
+                continue
+            seqs = [()]
+            for c in ch:
+                t = tok(c)
+                if t.startswith("opt(") and c[1] and c[1][0] == "optional":
+                    inner = tok((c[0], c[1][1]))
+                    some = None
+                    if len(c) > 2:
+                        some = fp["ps"].decided(St(x.conds), ("tproj", ("payload", c[2], OK, 0), 1), SOME)
+                    if some is True:
+                        seqs = [q + (inner,) for q in seqs]
+                    elif some is None:
+                        seqs = [q + (inner,) for q in seqs] + seqs
+                else:
+                    seqs = [q + (t,) for q in seqs]
+            mine = {norm(q) for q in seqs}
+            impl |= mine
+            extra = mine - spec
+            ck.judge(not extra, "C11-P", "parse:skeleton#%d" % n, "accepting path: %s" % " ".join(tok(c) for c in ch),
+                     "an accepting path of parse consumes `%s`, which is not an instance of ws? (NL | header ?? (ws args?)? ws? (NL|;))" % [" ".join(q) for q in sorted(extra)][:3],
                      data=pathsum.show_exit(x)[:1500])
-        missing = allowed - seen
-        ck.judge(not missing, "C11-P", "parse:skeleton-complete", "all %d grammar alternatives are accepting paths" % len(allowed),
-                 "grammar alternatives with no accepting path (white space no longer optional there, or an alternative was removed): %s" % sorted(missing))
-        ck.floor("C11-P", "Ok exits of parse", n, 13)
+        missing = spec - impl
+        ck.judge(not missing, "C11-P", "parse:skeleton-complete", "all %d grammar alternatives are accepted" % len(spec),
+                 "grammar alternatives that no accepting path consumes (white space no longer optional there, or an alternative was removed): %s" % [" ".join(q) for q in sorted(missing)][:6])
+        ck.floor("C11-P", "Ok exits of parse", n, 8)
     peeks = sk.direct_inspections()
     ck.judge(not peeks, "C11-P", "parser:no-direct-inspection", "input is examined only through parser applications (the skeleton is exact)",
              "input bytes are inspected directly, outside the parser combinators, so where white space / terminators are accepted no longer follows the grammar skeleton: %s"
@@ -123,7 +155,7 @@ def run(ck):
                         continue
                     ck.judge(swapcase_closed(cls), "C11-C", "%s:%s#%d" % (name, pid[0], n), "%s closed under case swap" % bytecls.show_set(cls),
                              "class %s in %s is not closed under ASCII case swap: upper and lower case spellings are treated differently" % (bytecls.show_set(cls), name), t[3])
-    ck.floor("C11-C", "byte classes in header/number parsers", n, 25)
+    ck.floor("C11-C", "byte classes in header/number parsers", n, 15)
     f = sk.fns.get(P + "program_mnemonic")
     if ck.anchor("C11-C", P + "program_mnemonic", f):
         alpha = frozenset(list(range(65, 91)) + list(range(97, 123)))
